@@ -5,10 +5,15 @@ import vlib
 LEVEL = "fault_enumeration"
 HERE = os.path.dirname(os.path.abspath(__file__))
 SRC = os.path.join(HERE, "harness.cpp")
+NSRC = os.path.join(HERE, "nested.cpp")
 
 
 def build():
     return vlib.compile_cxx(SRC, "c06", std="c++17", opt="-O1", san="asan-only")
+
+
+def build_nested():
+    return vlib.compile_cxx(NSRC, "c06n", std="c++17", opt="-O1", san="asan-only")
 
 
 def plan(tier):
@@ -18,9 +23,11 @@ def plan(tier):
 
 
 def run(ctx):
-    b = build()
+    b, bn = vlib.parallel([build, build_nested])
     dl = str(int(max(60, ctx.time_left() - 30)))
-    vlib.parallel([(lambda a=a: ctx.run_harness(b, a + ["--deadline", dl], tag="c06")) for a in plan(ctx.tier)])
+    nest = ["--nest", "3" if ctx.tier == "quick" else "4"]
+    vlib.parallel([(lambda a=a: ctx.run_harness(b, a + ["--deadline", dl], tag="c06")) for a in plan(ctx.tier)] +
+                  [lambda: ctx.run_harness(bn, nest + ["--deadline", dl], tag="c06n")])
     ctx.stats["evaluations"] = ctx.stats.get("transitions", 0)
     ctx.stats["distinct_nontrivial"] = ctx.stats.get("states", 0)
     ctx.rule = ("BFS over operation histories of a world of 2-3 xtl::any objects (state = history replayed on a fresh world, deduplicated by the observed (type,value,moved-from) of every object). "
@@ -28,7 +35,9 @@ def run(ctx):
                 "copy/move construct, copy/move assign incl. self copy-assign, member swap and std::swap incl. self-swap, reset, clear, destroy/recreate, mutation through any_cast<T&>. "
                 "FAULTS: every operation is run unfaulted (which counts the K throw points it reaches in that state) and then once per k=1..K with the k-th copy/move throwing. "
                 "Oracle: value model with the strong guarantee for copy-assignment/assignment from a value, address-keyed lifetime registry (construct once, never used dead, destroyed once, nothing alive after teardown), "
-                "ASan/LSan; in every new state all cast forms x all 8 types + unrelated types. distinct_nontrivial = distinct world states; faulted_transitions = executions with an injected throw")
+                "ASan/LSan; in every new state all cast forms x all 8 types + unrelated types. The tracked payloads are address-sensitive: the registry binds each object's heap cell to the address a constructor put it at, so bytes exchanged or relocated without move construction are reported. "
+                "NESTED part (nested.cpp): two any objects holding Small values or Node{any child} (heap-stored) / Handle{any* child} (in-place) trees up to nesting 3 (quick) / 4 (thorough); operations whose source lives inside the target's own content "
+                "(a = move(Node(a).child), by copy, via construct+swap, over two levels), whose source lives inside the other object, and whose target lives inside an object's content (child = a_j, child.swap(a_j)); value-semantic tree model, deep-copy checks. distinct_nontrivial = distinct world states; faulted_transitions = executions with an injected throw")
     ctx.assumptions += [
         "moved-from any objects are only required to be queryable/assignable/destructible (content unspecified); self move-assignment is not in the alphabet",
         "payload types are harness types whose constructors report to the registry; std::any (libstdc++, C++17) is consulted as a second opinion on fault-free prefixes only",
@@ -37,4 +46,6 @@ def run(ctx):
 
 
 def replay(ctx, rec):
-    ctx.run_harness(build(), rec["args"], tag="c06")
+    a = rec["args"]
+    nested = "--replay" in a and a[a.index("--replay") + 1].startswith("nest")
+    ctx.run_harness(build_nested() if nested else build(), a, tag="c06")
